@@ -789,6 +789,9 @@ func (t *atomTable) add(s string, canon bool) {
 		a, _ := netip.AddrFromSlice(v)
 		ip = vgen.Opt(gAddr(a.Unmap()), true)
 	}
+	if ia == "None" && pfx == "None" && ip == "None" {
+		return // no parser accepts it: absent from the table means rejected
+	}
 	t.out = append(t.out, vgen.App("GwRoute.Atom", vgen.Str(s), ia, pfx, ip, vgen.B(canon)))
 }
 
@@ -924,7 +927,7 @@ func main() {
 	run.CheckFn = "GwRoute.check"
 	run.DiagFn = "GwRoute.diag"
 	run.CaseType = "GwRoute.case"
-	run.ShardSize = 150
+	run.ShardSize = 180
 	if run.Tier == "thorough" {
 		run.ShardSize = 800
 	}
@@ -941,7 +944,7 @@ func main() {
 	rng := vgen.NewRand(run.Seed)
 
 	// 1. routing tables
-	nr := run.Count(220, 20000)
+	nr := run.Count(180, 10000)
 	for i := 0; i < nr; i++ {
 		r := rng.Fork(uint64(i))
 		t := genTable(r)
@@ -974,7 +977,7 @@ func main() {
 	}
 
 	// 2. forwarder
-	nf := run.Count(120, 10000)
+	nf := run.Count(100, 5000)
 	for i := 0; i < nf; i++ {
 		r := rng.Fork(uint64(1000000 + i))
 		t := genTable(r)
@@ -1067,7 +1070,7 @@ func main() {
 	}
 
 	// 3. Policy.Match
-	nm := run.Count(260, 30000)
+	nm := run.Count(170, 10000)
 	var imagePolicies []*gpolicy
 	for i := 0; i < nm; i++ {
 		r := rng.Fork(uint64(2000000 + i))
@@ -1097,9 +1100,9 @@ func main() {
 			x.Rsh(x, uint(128-(bits-q.Bits())))
 			addrs = append(addrs, addrFrom(v6, new(big.Int).Or(bigOf(q.Masked().Addr()), x)))
 		}
-		if len(addrs) > 24 {
+		if len(addrs) > 16 {
 			vgen.Shuffle(r, addrs)
-			addrs = addrs[:24]
+			addrs = addrs[:16]
 		}
 		if !run.Want() {
 			run.Skip()
@@ -1126,7 +1129,7 @@ func main() {
 	}
 
 	// 4. AdvertiseList
-	na := run.Count(100, 10000)
+	na := run.Count(60, 3000)
 	for i := 0; i < na; i++ {
 		r := rng.Fork(uint64(3000000 + i))
 		g := genPolicy(r, nil, false)
@@ -1168,7 +1171,7 @@ func main() {
 		}
 		doText("text-corpus", s)
 	}
-	nt := run.Count(400, 30000)
+	nt := run.Count(260, 15000)
 	for i := 0; i < nt; i++ {
 		r := rng.Fork(uint64(4000000 + i))
 		g := genPolicy(r, nil, true)
@@ -1203,7 +1206,7 @@ func main() {
 	}
 
 	// 6. MarshalText and back, on policies from the image of UnmarshalText
-	nmar := run.Count(120, 10000)
+	nmar := run.Count(90, 5000)
 	for i := 0; i < nmar; i++ {
 		r := rng.Fork(uint64(5000000 + i))
 		g := genPolicy(r, nil, true)
